@@ -236,14 +236,14 @@ PROPS["C13"] = {
 
 PROPS["C16"] = {
     "level": "proof",
-    "technique": "Lean 4: transcription of the reference's key decoders as a specification, format parameters of both sides proved equal; both decoding functions executed side by side on generated and mutated encodings; all four interoperability directions executed against the real PQClean C code (pqcrypto-falcon)",
+    "technique": "Lean 4: transcription of the reference's key decoders as a specification, proved equal to the model of this library's decoders on every byte string (accumulator loops vs. bit chunks), format parameters of both sides proved equal; both decoding functions also executed side by side on generated and mutated encodings; all four interoperability directions executed against the real PQClean C code (pqcrypto-falcon)",
     "rule": "ops = per variant: signatures made here (injected generator) relabelled/stripped and verified by PQClean under our public-key bytes; PQClean key pairs + signatures padded/relabelled and verified here; our secret-key bytes imported by PQClean which signs, verified here; PQClean secret keys imported here (derived public key equal to PQClean's bytes, re-encoding equal, our signature accepted by PQClean); traced ops: generated and mutated pk/sk encodings decoded by the Lean reference-format specification and by the Lean model of falcon.rs (must agree on acceptance and value); distinct by op line; all judged",
     "exhaustive": {"quick": (False, ""), "thorough": (False, "")},
-    "level_text": "Machine-checked: lengths, header bytes, field widths, modulus and reserved values of the two formats coincide (constants re-extracted from falcon.rs vs. the transcribed reference), header relabelling is a bijection, the reference's 2047 cap is the only (documented) divergence. Executed per run against the real PQClean code: ours->ref, ref->ours, exported and imported signing keys. NOT proved: equality of the two decoding functions on all byte strings (accumulator vs. chunk formulation; executed on generated and mutated encodings).",
+    "level_text": "Machine-checked: lengths, header bytes, field widths, modulus and reserved values of the two formats coincide (constants re-extracted from falcon.rs vs. the transcribed reference), header relabelling is a bijection, the reference's 2047 cap is the only (documented) divergence; reference_public_key_decoder_agrees / reference_secret_key_decoder_agrees: for every byte string and both variants the transcribed reference decoders (modq_decode, trim_i8_decode with accumulator, inner loop, reserved value, trailing bits, length and header tests) and the model of from_bytes accept the same strings and return the same polynomials (signed there, residues here). Executed per run against the real PQClean code: ours->ref, ref->ours, exported and imported signing keys. The transcription is tied to the real C code by execution only.",
     "level_note": "Trusted: PQClean itself (a second implementation, not verified); the Lean transcription of its codec; pqcrypto-falcon bindings. PQClean's own randomness makes the ref->ours ops non-replayable bit-for-bit (outputs are recorded).",
     "trusted_base": TB_COMMON + ["PQClean C code via pqcrypto-falcon 0.3.0 (vendored in the cargo registry)"],
     "assumptions": ["honest signatures have max|s2_i| <= 2047 (probability of exceeding it < 1e-30)"],
-    "not_proved": ["RefFormat.pkDecode/skDecode = KeyCodec.pkFromBytes/skFromBytes for all strings"],
+    "not_proved": ["that the Lean transcription equals PQClean's C code on all inputs (executed against the real code per run)", "signature-level interoperability for all signatures (executed; the 2047 cap is the documented divergence)"],
     "release_too": False,
     "run_timeout": {"quick": 900, "thorough": 3400},
 }
